@@ -11,6 +11,7 @@ import (
 	"path/filepath"
 	"sort"
 	"strings"
+	"verif/mc/explore"
 
 	"verif/mc/common"
 	"verif/mc/sched"
@@ -171,7 +172,7 @@ func init() {
 		}
 		pl := []schedPlan{{"race-elect-submit", 1, 120}, {"race-snapshot", 1, 90}, {"race-membership", 1, 120}, {"race-stop", 1, 120}, {"race-install", 1, 90}, {"race-bootstrap", 1, 90}, {"race-snapshot-membership", 2, 120}, {"race-file-compact", 1, 90}}
 		if tier == "thorough" {
-			pl = []schedPlan{{"race-elect-submit", 2, 600}, {"race-snapshot", 2, 400}, {"race-membership", 2, 600}, {"race-stop", 2, 600}, {"race-install", 2, 400}, {"race-bootstrap", 2, 300}, {"race-snapshot-membership", 3, 600}, {"race-file-compact", 2, 400}}
+			pl = []schedPlan{{"race-elect-submit", 2, 300}, {"race-snapshot", 2, 200}, {"race-membership", 2, 300}, {"race-stop", 2, 300}, {"race-install", 2, 200}, {"race-bootstrap", 2, 200}, {"race-snapshot-membership", 2, 300}, {"race-file-compact", 2, 300}}
 		}
 		return schedCheck(prop, tier, pl, map[string]any{"race_detector": "go build -race; hand-offs via //go:norace spin gates"})
 	}
@@ -182,6 +183,10 @@ type monitorList struct{}
 var schedDirSeq int
 
 func init() {
+	explore.ScratchDir = func() string {
+		schedDirSeq++
+		return filepath.Join(scratchDir(), fmt.Sprintf("verif-exec.%d.%d", os.Getpid(), schedDirSeq))
+	}
 	sched.ScratchDir = func() string {
 		schedDirSeq++
 		return filepath.Join(scratchDir(), fmt.Sprintf("verif-sched.%d.%d", os.Getpid(), schedDirSeq))
